@@ -339,6 +339,9 @@ class Dense(ABC):
         ...
 
     def __getattr__(self, attr: str) -> Any:
+        #without this guard unpickling recurses forever (pickle looks up
+        #__setstate__ etc. on an instance whose _row has not been set yet).
+        if attr == '_row': raise AttributeError(attr)
         return getattr(self._row, attr)
 
     def __eq__(self, o) -> bool:
@@ -356,6 +359,9 @@ class Dense_:
     __slots__=('_row')
 
     def __getattr__(self, attr: str) -> Any:
+        #without this guard unpickling recurses forever (pickle looks up
+        #__setstate__ etc. on an instance whose _row has not been set yet).
+        if attr == '_row': raise AttributeError(attr)
         return getattr(self._row, attr)
 
     def __eq__(self, o) -> bool:
@@ -408,6 +414,9 @@ class Sparse(ABC):
         ...
 
     def __getattr__(self, attr: str) -> Any:
+        #without this guard unpickling recurses forever (pickle looks up
+        #__setstate__ etc. on an instance whose _row has not been set yet).
+        if attr == '_row': raise AttributeError(attr)
         return getattr(self._row, attr)
 
     def __eq__(self, o: object) -> bool:
@@ -425,6 +434,9 @@ class Sparse_:
     ##Therefore we keep Sparse around for public API checks but internally we use Sparse_ for inheritance.
 
     def __getattr__(self, attr: str) -> Any:
+        #without this guard unpickling recurses forever (pickle looks up
+        #__setstate__ etc. on an instance whose _row has not been set yet).
+        if attr == '_row': raise AttributeError(attr)
         return getattr(self._row, attr)
 
     def __eq__(self, o: object) -> bool:
